@@ -143,21 +143,7 @@ def run(chk, facts_dir, tier):
         chk.fail("R20.3", hb.path, "request-unanswered", "handle_append_events can return without answering the request (the client sees NoThreadReply or waits)", hb)
 
     # R20.4
-    rb = prog.body(WS + "rollover")
-    chk.analysed(rb.path)
-    syn = calls(rb, WS + "sync")
-    tx = field_stores(rb, "sync_tx", "WriterSet")
-    if syn and tx and all(rb.dominates(syn[0][0], t[0]) for t in tx):
-        from ..util import try_continue_block
-        cont = try_continue_block(rb, syn[0][0])
-        if cont is not None and all(rb.dominates(cont, t[0]) for t in tx):
-            chk.ok("R20.4", "rollover syncs the old segment successfully before replacing the sync channel", rb.where(syn[0][1]["line"]))
-        else:
-            chk.fail("R20.4", WS + "rollover", "channel-replaced-on-failed-sync", "the sync channel is replaced although the old segment's sync failed", rb)
-    elif not tx:
-        chk.ok("R20.4", "rollover keeps the channel (no replacement): C01 R1.4 decides whether that is sound", rb.where())
-    else:
-        chk.fail("R20.4", WS + "rollover", "channel-replaced-before-sync", "the sync channel is replaced before the old segment was synced: appends waiting on the old channel are never woken", rb)
+    rollover_syncs_first(chk, prog, "R20.4")
     # R20.6 the skip decision does not look at the segment writer's offsets
     chk.rule("R20.6", "SKIPPING A SYNC NEEDS NO-WAITER EVIDENCE: the functions that decide whether a poll tick or a write syncs (should_sync, sync_if_necessary, handle_flush_poll) "
                       "decide from WriterSet's own bookkeeping only (byte / event counters, last_synced, the published sync_tx value), which changes together with publications; they never "
@@ -196,3 +182,23 @@ def run(chk, facts_dir, tier):
                     chk.ok("R20.6", "sync_if_necessary: sync() iff should_sync()", b.where())
     chk.floor("R20.6", n6, 2)
     return {}
+
+
+def rollover_syncs_first(chk, prog, rule):
+    """rollover syncs the old segment successfully (publishing its final offset and draining the pending index entries into the OLD live
+    indexes) before it replaces writer, indexes and channel (C20 R20.4, C01 R1.8)"""
+    rb = prog.body(WS + "rollover")
+    chk.analysed(rb.path)
+    syn = calls(rb, WS + "sync")
+    tx = field_stores(rb, "sync_tx", "WriterSet")
+    if syn and tx and all(rb.dominates(syn[0][0], t[0]) for t in tx):
+        from ..util import try_continue_block
+        cont = try_continue_block(rb, syn[0][0])
+        if cont is not None and all(rb.dominates(cont, t[0]) for t in tx):
+            chk.ok(rule, "rollover syncs the old segment successfully before replacing the sync channel", rb.where(syn[0][1]["line"]))
+        else:
+            chk.fail(rule, WS + "rollover", "channel-replaced-on-failed-sync", "the sync channel is replaced although the old segment's sync failed", rb)
+    elif not tx:
+        chk.ok(rule, "rollover keeps the channel (no replacement): C01 R1.4 decides whether that is sound", rb.where())
+    else:
+        chk.fail(rule, WS + "rollover", "channel-replaced-before-sync", "the sync channel is replaced before the old segment was synced: appends waiting on the old channel are never woken", rb)
